@@ -34,10 +34,11 @@ CYCLES = ("pipe-open-close pipe-roundtrip pipe-drop unix-socket spawn-wait spawn
           "spawn-drop execute thread-call thread-async-chan chan-go-give-take chan-cancelled-waiter select-abandon "
           "read-timeout deadline-no-fire deadline-fire go-error-supervisor spawn-finish file-open-close file-drop "
           "parser-peg sleep lock spawn-err-pipe spawn-all-pipes thread-call-cancelled thread-call-deadline "
-          "proc-wait-cancelled read-cancelled write-cancelled sleep-cancelled connect-refused connect-accept-tcp").split()
+          "proc-wait-cancelled read-cancelled write-cancelled sleep-cancelled connect-refused connect-accept-tcp "
+          "spawn-drop-running deadline-body-raises").split()
 FIELDS = ["fds", "children", "threads", "root-count", "block-count", "tq-count", "listener-count", "fds-before-gc"]
 # cycles that deliberately drop an open handle and leave closing it to the collector
-GC_CLOSES = {"pipe-drop", "file-drop", "spawn-drop"}
+GC_CLOSES = {"pipe-drop", "file-drop", "spawn-drop", "spawn-drop-running"}
 
 # ------------------------------------------------------------------ termination programs
 
@@ -50,6 +51,7 @@ SOLO = {
     "D": "(try (ev/with-deadline 0.01 (ev/take (ev/chan))) ([e] nil))",
     "F": "(ev/with-deadline 5 (ev/sleep 0.001))",
     "R": "(do (def [r w] (os/pipe)) (try (ev/read r 1 nil 0.01) ([e] nil)) (ev/close r) (ev/close w))",
+    "G": "(try (ev/with-deadline 5 (error \"body-failed\")) ([e] nil))",
     "E": "(do (def p (os/spawn [\"/bin/sh\" \"-c\" \"echo x >&2\"] :p {:err :pipe :out :pipe})) (ev/read (p :err) :all) (ev/read (p :out) :all) (os/proc-wait p) (os/proc-close p))",
 }
 LINKS = ["none", "chan", "pipe", "tchan", "cancel", "cancel-read"]
@@ -109,6 +111,9 @@ def burst_program(n, kind):
     return "\n".join(lines) + "\n", sorted(["done %d" % i for i in range(n)] + ["main returns"])
 
 
+VT_EXIT_LIMIT_MS = 2000.0
+
+
 def seqs(maxlen, letters):
     out = [""]
     for n in range(1, maxlen + 1):
@@ -156,9 +161,16 @@ def run_term(chk):
         path = os.path.join(tmp, "p%d.janet" % idx)
         with open(path, "w") as f:
             f.write(src)
-        r = run(exe, [path], env={"VERIF_VTIME": "1"}, timeout=40)
+        r = run(exe, [path], env={"VERIF_VTIME": "1", "VERIF_VT_EXIT": path + ".vt"}, timeout=40)
         os.unlink(path)
-        return r
+        vt = None
+        try:
+            with open(path + ".vt") as f:
+                vt = float(f.read().split()[0])
+            os.unlink(path + ".vt")
+        except (OSError, ValueError, IndexError):
+            pass
+        return (r, vt)
 
     results = []
     hangs = 0
@@ -169,12 +181,13 @@ def run_term(chk):
                 chk.cap("termination: %d programs not run after %d hanging programs" % (len(todo) - i, hangs))
                 break
             part = pmap(one, todo[i:i + 128])
-            hangs += sum(1 for r in part if r.timed_out)
+            hangs += sum(1 for r, _ in part if r.timed_out)
             results += part
     finally:
         shutil.rmtree(tmp, ignore_errors=True)
     progs = progs[:len(results)]
-    for (tasks, link, mw), r in zip(progs, results):
+    vt_max = [0.0]
+    for (tasks, link, mw), (r, vt_exit) in zip(progs, results):
         chk.add(evaluations=1, transitions=1, states=1)
         if link == "burst":
             src, expect = burst_program(int(tasks[0]), mw)
@@ -196,7 +209,17 @@ def run_term(chk):
             missing = [e for e in expect if e not in got]
             chk.violation(("exit-before-completion:" if missing else "unexpected-output:") + opsig,
                           "program %s printed %r, expected %r" % (shape, got, expect), src)
-    chk.part("termination", programs=len(progs))
+        elif vt_exit is None:
+            raise HarnessError("no virtual exit time recorded for program %s" % shape)
+        elif vt_exit > VT_EXIT_LIMIT_MS:
+            # no operation of the grammar needs more than a few hundredths of a (virtual) second; the guard deadlines
+            # are 5 s. A loop that returns later than that was kept alive by something that was no longer needed.
+            chk.violation("loop-outlives-the-work:" + opsig,
+                          "program %s printed everything but the event loop only returned at virtual time %.3f s "
+                          "(all work is done within %.1f s)" % (shape, vt_exit / 1000.0, VT_EXIT_LIMIT_MS / 1000.0), src,
+                          replay_cmd="janet <file>   # must exit as soon as the last line is printed (here: after seconds of real time)")
+        vt_max[0] = max(vt_max[0], vt_exit or 0)
+    chk.part("termination", programs=len(progs), latest_virtual_exit_ms=vt_max[0])
     chk.sample({"termination_program": program(["TP", "S"], "pipe", False)[0]})
 
 
